@@ -2,6 +2,7 @@
 (correspondence half: DFA.minify / DFA.to_partial vs the extracted model)."""
 from __future__ import annotations
 
+import copy
 import itertools
 
 import enc
@@ -13,7 +14,8 @@ RULE = ("valid DFA definitions: random (1-6 states, 1-3 symbols, 7 name pools in
         "a live core with dead states entered by explicit edges, unreachable states, cloned (Nerode-equivalent) states, "
         "larger dense DFAs (6-9 states), dead / non-final initial state, empty and universal languages, already-minimal inputs (the model's own result fed "
         "back), states named -1, -2 (trap-name collision); each evaluated through minify(), minify(retain_names=True), "
-        "to_partial(minify=True, retain_names=False/True), to_partial(minify=False) and minify().minify(); "
+        "to_partial(minify=True, retain_names=False/True), to_partial(minify=False) and minify().minify(); one shaped "
+        "definition in ten is built and used under allow_mutable_automata = True (plain dicts and sets kept); "
         "every case is also run through the mirror model of the Hopcroft worklist under four pop schedules "
         "(oldest first, a random one, newest-first / smallest-id / largest-id in rotation) and shuffled symbol orders; "
         "distinct = distinct canonical input; non-trivial = the minimal automaton has fewer states than the input "
@@ -254,12 +256,29 @@ def mirror_requests(rng, src, nsy, serial):
 
 
 # ---------- one batch of cases ----------
+class MutableMode:
+    """allow_mutable_automata = True for a block (the automaton then keeps the plain dicts and sets it was given)."""
+
+    def __init__(self, on):
+        self.on = on
+
+    def __enter__(self):
+        import automata.base.config as cfg
+        self.cfg, self.saved = cfg, cfg.allow_mutable_automata
+        if self.on:
+            cfg.allow_mutable_automata = True
+
+    def __exit__(self, *exc):
+        self.cfg.allow_mutable_automata = self.saved
+
+
 def check_defs(ctx, items):
     """items: list of (tag, ddef).  Two driver round trips for the whole list."""
     prepared = []
     req = []
     for tag, ddef in items:
-        d = mk_dfa(ddef)
+        with MutableMode(tag.endswith("mutable_mode")):
+            d = mk_dfa(copy.deepcopy(ddef))
         st = enc.Renum(enc.dfa_names(d))
         sy = enc.SymMap(d.input_symbols)
         src = enc.enc_dfa(d, st, sy)
@@ -275,9 +294,10 @@ def check_defs(ctx, items):
         model = {1: enc.dec_res(ans[base0]), 2: enc.dec_res(ans[base0 + 1]), 3: enc.dec_res(ans[base0 + 2])}
         mirror = [(label, which, mop_, enc.dec_res(ans[base0 + 3 + j])) for j, (label, which, mop_, _) in enumerate(mreqs)]
         results = {}
-        for name, mop, call in OPS:
-            results[name] = outcome(lambda: call(d))
-        twice = outcome(lambda: d.minify().minify())
+        with MutableMode(tag.endswith("mutable_mode")):
+            for name, mop, call in OPS:
+                results[name] = outcome(lambda: call(d))
+            twice = outcome(lambda: d.minify().minify())
         entry = {"tag": tag, "ddef": ddef, "d": d, "st": st, "sy": sy, "src": src, "model": model,
                  "results": results, "twice": twice, "slots": {}, "mirror": mirror, "cslots": {}}
         for name, mop, call in OPS:
@@ -612,6 +632,8 @@ def run(ctx):
         r = i % 5
         if i % 10 == 7:
             stream.append(("trap_name_collision_shape", collision_def(rng)))
+        elif i % 10 == 2:
+            stream.append(("shaped_mutable_mode", shaped_def(rng)))
         elif r == 4 or r == 3:
             stream.append(("big", big_def(rng)))
         elif r == 0:
